@@ -163,15 +163,19 @@ def anyterm(I, v):
     if isinstance(v, int):
         return T.lit_bytes(str(v).encode())
     if is_sym(v) and z3.is_bv(v):
-        return T.Term.bits(z3.IntVal(v.size() // 8), z3.Concat(v, z3.BitVecVal(0, T.BW - v.size())) if v.size() < T.BW else v)
+        if v.size() < 64:
+            v = z3.ZeroExt(64 - v.size(), v)
+        return T.Term.bits(z3.IntVal(v.size() // 8), z3.simplify(z3.Concat(v, z3.BitVecVal(0, T.BW - v.size()))) if v.size() < T.BW else v)
     if isinstance(v, (TermBytes, SliceVal)) or v is None:
         return I.bytes_term(v)
     return T.lit_bytes(repr(v).encode('latin-1', 'replace'))
 
 
 def dec_string(I, v):
-    if isinstance(v, int):
+    if isinstance(v, int) and not I.cfg.get('dec_as_term'):
         return str(v)
+    if isinstance(v, int):
+        v = z3.BitVecVal(v & ((1 << 64) - 1), 64)
     if is_intmode(v):
         raise Inconclusive('decimal of int-mode value')
     t = T.app('dec', anyterm(I, v))
